@@ -272,4 +272,18 @@ def g2iCont (tol : α) (delta : List α) : Bool := delta.any (fun d => decide (t
 
 end
 
+/-! ### the stored COA projection of a structure (`SICDType.define_coa_projection`, SICD.py:684-721; SIDD twins)
+
+  `define_coa_projection(params, override)` returns without effect when a projection is stored and `override` is false; otherwise
+  it stores the projection built from `params`.  The structure's own `project_*` methods use the stored projection (defining the
+  default one, `override=False`, if nothing is stored).  `P` is the type of adjustable-parameter sets. -/
+def coaDefine {P : Type} (st : Option P) (op : P × Bool) : Option P :=
+  if st.isSome && !op.2 then st else some op.1
+
+/-- the projection in effect after a history of `define_coa_projection` calls on a fresh structure -/
+def coaRun {P : Type} (ops : List (P × Bool)) : Option P := ops.foldl coaDefine none
+
+/-- what a `project_*` method of the structure uses: the stored projection, else the default one -/
+def coaUsed {P : Type} (dflt : P) (st : Option P) : P := st.getD dflt
+
 end Sarpy.Spec.Proj
